@@ -692,5 +692,7 @@ def run(ctx):
     rule_linger_wakeup(ctx)
     rule_fail_all(ctx)
     rule_future_ownership(ctx)
+    from .common import rule_instance_state
+    rule_instance_state(ctx, ("aiokafka.producer.",))
     rep.nd("'within bounded time after faults cease' (liveness)")
     rep.nd("that the offset the broker reports is where the record really sits")
